@@ -354,17 +354,49 @@ def nocache_case(sessions, held):
 def sessions_without_cache(tier, seed):
     cases = [(n, held) for n in (1, 2, 3) for held in (False, True)]
     fails = [f for f in (nocache_case(*c) for c in cases) if f]
-    f = cache_switched_on_case()
-    if f:
-        fails.append(f)
-    return {'evaluations': len(cases) + 1, 'distinct_nontrivial': len(cases) + 1, 'exhaustive': True, 'bound': 'one history in which a reload switches adj-rib-out on before an API announce and a session loss; 1, 2 and 3 consecutive sessions of a neighbor with `adj-rib-out false` and route-refresh disabled, one configured route, with and without a second one held back by its watchdog; real send statements of Peer._main, recording transport', 'rule': 'one case = (number of sessions, held-back route)', 'samples': [{'sessions': 2, 'route_held_back_by_a_watchdog': False}], 'failures': fails}
+    for f in (cache_switched_on_case(), nocache_withdrawn_case('up'), nocache_withdrawn_case('down')):
+        if f:
+            fails.append(f)
+    return {'evaluations': len(cases) + 3, 'distinct_nontrivial': len(cases) + 3, 'exhaustive': True, 'bound': 'one history in which a reload switches adj-rib-out on before an API announce and a session loss; a configured route withdrawn through the API (session up / down) with no Adj-RIB-Out kept; 1, 2 and 3 consecutive sessions of a neighbor with `adj-rib-out false` and route-refresh disabled, one configured route, with and without a second one held back by its watchdog; real send statements of Peer._main, recording transport', 'rule': 'one case = (number of sessions, held-back route)', 'samples': [{'sessions': 2, 'route_held_back_by_a_watchdog': False}], 'failures': fails}
 
 
 @replayer('C11', 'sessions-without-adj-rib-out')
 def _replay_nocache(f):
     if 'history' in f['input']:
         return cache_switched_on_case() is None
+    if 'when' in f['input']:
+        return nocache_withdrawn_case(f['input']['when']) is None
     return nocache_case(f['input']['sessions'], f['input']['route_held_back_by_a_watchdog']) is None
+
+
+def nocache_withdrawn_case(when):
+    """no Adj-RIB-Out kept: a CONFIGURED route withdrawn through the API (while the session is up, or down) stays
+    withdrawn on the next session, as it does when the Adj-RIB-Out is kept"""
+    inp = {'adj_rib_out': False, 'configured': ['10.0.1.0/24', '10.0.2.0/24'], 'withdrawn_through_the_api': '10.0.2.0/24', 'when': when}
+    w = c17.World(dict(routes={'A': 10, 'B': None}, hold=180, nocache=True))
+    key = list(w.peers())[0]
+    s = Sess(w, key)
+    try:
+        if not s.settle():
+            return {'what': 'first session never settles', 'input': inp}
+        rib = s.peer.neighbor.rib.outgoing
+        if when == 'up':
+            apply(rib, ('wd', 1, None))
+            s.settle()
+        s.lose()
+        if when == 'down':
+            apply(rib, ('wd', 1, None))
+        for n in (2, 3):
+            s.up()
+            if not s.settle():
+                return {'what': f'session {n} never settles', 'input': inp}
+            want = {_key(0): ('192.0.2.1', 10)}
+            if s.table.table != want:
+                return {'what': f'session {n}: a configured route withdrawn through the API is advertised again (no Adj-RIB-Out kept)', 'input': inp, 'intended': str(sorted(want.items())), 'peer': str(sorted(s.table.table.items()))}
+            s.lose()
+    except Exception as e:  # noqa
+        return {'what': f'path raised {type(e).__name__}: {str(e)[:200]}', 'input': inp}
+    return None
 
 
 def cache_switched_on_case():
